@@ -26,7 +26,7 @@ def run(tier, replay=None):
     _cat.report_pipeline(rep, builts, total, "enc")
     # kinds: every primitive / enum / set / composite-with-refs / array encoding kind, both byte orders
     from ..enum import kinds
-    kcells = cxx.QUICK_CELLS if tier == "quick" else cxx.ALL_CELLS
+    kcells = cxx.CODEC_CELLS if tier == "quick" else cxx.ALL_CELLS
     ks = []
     for bo in ("littleEndian", "bigEndian"):
         s = kinds.kinds_schema(bo)
